@@ -523,7 +523,11 @@ def r5(ctx):
     ctx.check("R5", f"{f.site()}::triple-budget-reaches-the-kernel", budget is not None and U(inline(budget, lenv)) == "self.max_triples",
               "the kernel is called with max_combos=self.max_triples",
               f"the kernel is called with max_combos=`{U(budget) if budget is not None else '<omitted: the default applies>'}`, not the scorer's `self.max_triples`")
-    cur = [k for k, v in lenv.items() if U(v).replace(" ", "") == f"[{plates}[k]forkin{sg}]"]
+    def selects_by_ids(v):
+        # [plates[k] for k in <subgroup>] whatever the comprehension's variable is called
+        return isinstance(v, ast.ListComp) and len(v.generators) == 1 and not v.generators[0].ifs and isinstance(v.generators[0].target, ast.Name) \
+            and U(v.generators[0].iter) == sg and U(v.elt).replace(" ", "") == f"{plates}[{v.generators[0].target.id}]"
+    cur = [k for k, v in lenv.items() if selects_by_ids(v)]
     ok_sel = len(cur) == 1
     ctx.check("R5", f"{f.site()}::inputs-selected-by-subgroup-ids", ok_sel, f"current plates = [plates[k] for k in {sg}] (ids select inputs, in order)",
               "the plates handed to the kernel are not selected by the subgroup's ids in order")
@@ -546,7 +550,8 @@ def r5(ctx):
         varis = unpad(kw.get("variances"))
         want_m = f"[predict_mean_all(screen=plate,thetas={samples})forplatein{cp}]"
         want_v = f"[predict_variance_all(screen=plate,thetas={samples})forplatein{cp}]"
-        ok = U(means).replace(" ", "") == want_m and U(varis).replace(" ", "") == want_v
+        from engine.astutil import UA
+        ok = means is not None and varis is not None and UA(means) == UA(want_m.replace("forplatein", " for plate in ")) and UA(varis) == UA(want_v.replace("forplatein", " for plate in "))
         ctx.check("R5", f"{f.site()}::per-plate-predictions", ok, "means / variances are predicted per plate, in the order of the current plates, by predict_mean_all / predict_variance_all",
                   f"kernel inputs are `{U(means)[:90]}` / `{U(varis)[:90]}`: each plate's block must be that plate's own predictions (per plate, in order, like-named predictors)")
     upd = [c for c in calls(loop, tail="update") if c.args and isinstance(c.args[0], ast.Call) and call_name(c.args[0]) == "dict"]
